@@ -265,7 +265,7 @@ func runC20(args []string) int {
 	}
 	// ---------------- other curves: pairwise difference (black box)
 	curves := []ecc.ID{ecc.BLS12_381}
-	if o.Thorough() {
+	if o.AllCurves() {
 		curves = []ecc.ID{ecc.BLS12_377, ecc.BLS12_381, ecc.BW6_761, ecc.BLS24_315, ecc.BLS24_317, ecc.BW6_633}
 	}
 	for _, id := range curves {
